@@ -448,3 +448,136 @@ Proof.
   rewrite ssum_coins_add_all, send_spec by (unfold MODULE in *; lia).
   unfold MODULE in *. destruct (0 =? a) eqn:Q; [lia|]. simpl. lia.
 Qed.
+(* ---------------------------------------------------------------- invariant over histories *)
+Lemma slash_token_rsum : forall ts d sl ts', slash_token ts d sl = Ok ts' -> forall d', rsum ts' d' = rsum ts d'.
+Proof.
+  induction ts as [|t r IH]; cbn [slash_token]; intros d sl ts' H d'.
+  - injection H as <-. reflexivity.
+  - destruct (slash_token r d sl) as [rest| |] eqn:E; cbn [bind] in H; try discriminate.
+    specialize (IH _ _ _ E d').
+    destruct (t_denom t =? d).
+    + destruct (dmul (t_weight t) (dec_one - sl)); cbn [bind] in H; try discriminate. injection H as <-.
+      rewrite !rsum_cons. cbn [t_denom t_amount]. lia.
+    + injection H as <-. rewrite !rsum_cons. lia.
+Qed.
+
+(* operations of holders (never the module account itself), emergency switches, hooks, end block,
+   weight slashes.  Edits are treated separately below; the pool-upsert hook is excluded (refuted). *)
+Definition op_ok (o : op) : Prop :=
+  match o with
+  | OMint _ a _ | OBurn _ a _ _ | OSwap _ a _ => a <> MODULE
+  | OEdit _ => False
+  | OUpsertHook se => se = false
+  | _ => True
+  end.
+Definition Inv (s : state) : Prop := Books s /\ fee_ok (s_bk s).
+
+Lemma step_inv : forall v s o s', step v s o = Ok s' -> op_ok o -> Inv s -> Inv s'.
+Proof.
+  intros v s o s' H Hok [B F]. destruct o; cbn [step] in H; cbn [op_ok] in Hok.
+  - split; [eapply mint_books; eauto|]. unfold mint in H. inv_ok H. injection H as <-. exact F.
+  - split; [eapply burn_books; eauto|]. unfold burn in H. inv_ok H. injection H as <-. exact F.
+  - split; [eapply swap_books; eauto|]. unfold swap in H. inv_ok H. injection H as <-. exact F.
+  - contradiction.
+  - destruct (negb allowed); [discriminate|]. injection H as <-. split; [exact B|exact F].
+  - injection H as <-. split; assumption.
+  - injection H as <-. split; assumption.
+  - destruct (slash_token (b_tokens (s_bk s)) d slash) as [ts| |] eqn:E; cbn [bind] in H; try discriminate.
+    injection H as <-. split; [|exact F]. destruct B as [B1 B2]. split; [exact B1|].
+    intros d'. cbn [with_bk s_bk s_bal set_tokens b_tokens b_surplus]. rewrite (slash_token_rsum _ _ _ _ E d'). apply B2.
+  - injection H as <-. split; assumption.
+  - subst stake_enabled. injection H as <-. split; assumption.
+Qed.
+
+Theorem books_match_bank : forall v ops s, Forall op_ok ops -> Inv s -> Inv (run v s ops).
+Proof.
+  intros v ops. unfold run. induction ops as [|o r IH]; simpl; intros s Hok I; [exact I|].
+  inversion Hok as [|? ? H1 H2]; subst. apply IH; [exact H2|].
+  unfold apply. destruct (step v s o) as [s'| |] eqn:E; try exact I. eapply step_inv; eauto.
+Qed.
+
+(* an edit under the repaired variant touches neither the recorded amount, the surplus, the bank ... *)
+Theorem edit_keeps_amount_repaired : forall v s new s', v_edit_keep v = true -> edit v s new = Ok s' ->
+  b_amount (s_bk s') = b_amount (s_bk s) /\ s_supply s' = s_supply s /\ b_surplus (s_bk s') = b_surplus (s_bk s)
+  /\ s_bal s' = s_bal s.
+Proof.
+  unfold edit. intros v s new s' Hv H. rewrite Hv in H. inv_ok H. injection H as <-. repeat split.
+Qed.
+(* ... and always leaves the supply covered by the new valuation of the reserves *)
+Theorem edit_leaves_supply_covered : forall v s new s', edit v s new = Ok s' ->
+  exists vs, token_values (b_tokens (s_bk s')) = Ok vs /\ s_supply s' <= trunc_int (zsum vs).
+Proof.
+  unfold edit. intros v s new s' H. inv_ok H. injection H as <-.
+  exists a0. destruct (v_edit_keep v); cbn [s_supply s_bk b_tokens set_amount set_surplus set_tokens]; (split; [exact E0|lia]).
+Qed.
+
+(* the code as it is: an edit proposal that changes only the fee and leaves the amount field at 0 *)
+Definition edit_wit : basket :=
+  mkB 0 [mkT 1 PREC 0 true true true] [] 20000000000000000 0 PREC 3600 1 1000000000000 1 1000000000000 1 1000000000000 false false false.
+Lemma wit_books : Books wit_state.
+Proof.
+  split; [reflexivity|]. intros d. unfold wit_state, init_state, wit_basket. cbn [s_bk s_bal b_tokens b_surplus].
+  rewrite rsum_cons, ssum_nil, rsum_nil. cbn [t_denom t_amount]. unfold MODULE.
+  change ((0 =? 0) && (d =? 1)) with (d =? 1).
+  change (((0 =? 1) || (0 =? 2)) && (d =? 0)) with false. destruct (1 =? d) eqn:Q, (d =? 1) eqn:Q2; lia.
+Qed.
+Lemma edit_wit_b : match edit current wit_state edit_wit with Ok s' => (s_supply s' =? 2000) && (b_amount (s_bk s') =? 0) | _ => false end = true.
+Proof. vm_compute. reflexivity. Qed.
+Theorem books_edit_refuted : exists s new s', Books s /\ edit current s new = Ok s' /\ s_supply s' <> b_amount (s_bk s').
+Proof.
+  exists wit_state, edit_wit. pose proof edit_wit_b as H.
+  destruct (edit current wit_state edit_wit) as [s'| |]; try discriminate.
+  exists s'. split; [exact wit_books|]. split; [reflexivity|]. lia.
+Qed.
+(* the pool-upsert hook replaces the record: supply in circulation, recorded amount zero *)
+Theorem books_upsert_hook_refuted : exists s, Books s /\ ~ Books (apply current s (OUpsertHook true)).
+Proof.
+  exists wit_state. split; [exact wit_books|]. intros [B _]. vm_compute in B. discriminate.
+Qed.
+(* ---------------------------------------------------------------- swap: value out <= value in less fees *)
+Theorem swap_pair_value : forall b now a acc din xin dout acc' tin tout,
+  swap_pair b now a acc (din, xin, dout) = Ok acc' -> fee_ok b ->
+  find_token (a_ts acc) din = Some tin -> find_token (a_ts acc) dout = Some tout ->
+  0 < t_weight tin -> 0 < t_weight tout ->
+  exists out, a_outs acc' = coins_add (a_outs acc) dout out /\ 0 < out /\ 0 < xin
+    /\ t_sw tin = true /\ t_sw tout = true /\ b_smin b <= trunc_int (xin * t_weight tin)
+    /\ 2 * out * t_weight tout * PREC <= 2 * xin * (PREC - b_fee b) * t_weight tin + t_weight tout.
+Proof.
+  unfold swap_pair, fee_ok. intros b now a acc din xin dout acc' tin tout H Hf Fi Fo Wi Wo.
+  rewrite Fi, Fo in H. inv_ok H. injection H as <-. cbn [a_outs].
+  apply dmul_int_l in E, E0, E1. unfold dec, dec_one in *. subst a0 a1 a2.
+  pose proof PREC_pos as HP.
+  set (A1 := xin * (PREC - b_fee b)) in *.
+  assert (X0 : 0 <= A1) by (apply Z.mul_nonneg_nonneg; lia).
+  pose proof (chop_trunc_bounds A1 X0) as TB. pose proof (chop_trunc_nonneg A1 X0) as TN. unfold trunc_int in *.
+  set (sa := chop_trunc A1) in *.
+  assert (Q0 : 0 <= sa * t_weight tin) by (apply Z.mul_nonneg_nonneg; lia).
+  apply dquo_bound in E2; [|exact Q0|exact Wo]. destruct E2 as [R0 R1].
+  pose proof (chop_trunc_bounds a3 R0) as TB3. set (out := chop_trunc a3) in *.
+  exists out. destruct (t_sw tin), (t_sw tout); try discriminate.
+  repeat split; try lia.
+  assert (K1 : 2 * (out * PREC) * t_weight tout <= 2 * a3 * t_weight tout) by (apply Z.mul_le_mono_nonneg_r; lia).
+  assert (K2 : sa * PREC * t_weight tin <= A1 * t_weight tin) by (apply Z.mul_le_mono_nonneg_r; lia).
+  replace (2 * xin * (PREC - b_fee b) * t_weight tin) with (2 * A1 * t_weight tin) by (unfold A1; ring).
+  clearbody out sa A1. clear - K1 K2 R1 HP Wo.
+  assert (K3 : 2 * out * t_weight tout * PREC * PREC <= (2 * A1 * t_weight tin + t_weight tout) * PREC) by nia.
+  apply Z.mul_le_mono_pos_r in K3; [lia|exact HP].
+Qed.
+
+(* the slippage fee only lowers what is paid *)
+Lemma final_outs_le : forall omf outs ff, final_outs omf outs = Ok ff -> forall d, ssum (fst ff) d <= ssum outs d.
+Proof.
+  intros omf outs ff H d. pose proof (final_outs_sum _ _ _ H d) as S.
+  assert (0 <= ssum (snd ff) d); [|lia]. clear S. revert ff H.
+  induction outs as [|[e x] r IH]; simpl; intros ff H.
+  - injection H as <-. rewrite ssum_nil. lia.
+  - inv_ok H. injection H as <-. cbn [snd]. rewrite ssum_cons. cbn [fst snd]. specialize (IH _ eq_refl).
+    destruct (e =? d); lia.
+Qed.
+
+(* disabled swaps are rejected *)
+Theorem swap_respects_switch : forall s now a ps s', swap s now a ps = Ok s' -> b_sd (s_bk s) = false.
+Proof. unfold swap. intros s now a ps s' H. inv_ok H. reflexivity. Qed.
+Theorem burn_disabled_token_pays_nothing : forall ts p outs, withdraw_coins ts p = Ok outs ->
+  forall d, (forall t, In t ts -> t_denom t = d -> t_wd t = false) -> ssum outs d = 0.
+Proof. exact withdraw_coins_disabled. Qed.
